@@ -1,0 +1,8 @@
+//go:build !verif
+
+// Package verifhook provides yield points used only by the external verification harness.
+// Without the "verif" build tag every function here is an empty, inlinable no-op.
+package verifhook
+
+// Point marks a named yield point. It does nothing unless built with the "verif" tag.
+func Point(name string, args ...string) {}
